@@ -110,6 +110,9 @@ def build(g):
 
 def wf(g, ic, prog):
     ok = len(ic.cache.sets) == g.nsets
+    for s1 in range(g.nsets):
+        for s2 in range(s1 + 1, g.nsets):
+            ok = ok & (ic.cache.sets[s1].replacement_strategy is not ic.cache.sets[s2].replacement_strategy) & (ic.cache.sets[s1].blocks is not ic.cache.sets[s2].blocks)
     for s in range(g.nsets):
         cs = ic.cache.sets[s]
         ok = ok & (len(cs.blocks) == g.assoc)
